@@ -34,11 +34,39 @@ static void put_enum(FILE *f) {
           HWLOC_OBJ_MEMCACHE, HWLOC_OBJ_BRIDGE, HWLOC_OBJ_PCI_DEVICE, HWLOC_OBJ_OS_DEVICE, HWLOC_OBJ_MISC, HWLOC_OBJ_TYPE_MAX);
 }
 
+/* component selection of a case: the explicit list ending in `stop` by default; a letter in <checks> selects a form that relies on
+ * DEFAULT enabling (C18-r7):  D = HWLOC_COMPONENTS unset,  o = first component named, the others by default ("linux" / "x86"),
+ * n = blacklist form ("-x86") for a Linux snapshot, the other explicit order ("linux,x86,stop") for a pair.  x86-only dumps always use
+ * "x86,stop" (anything enabled by default would read the real /sys of this machine). */
+static const char *g_variant = "";
 static void set_env(char comps, const char *fsroot, const char *cpuid) {
   unsetenv("HWLOC_FSROOT"); unsetenv("HWLOC_CPUID_PATH"); unsetenv("HWLOC_COMPONENTS"); unsetenv("HWLOC_DUMPED_HWDATA_DIR");
   if (strcmp(fsroot, "-")) { setenv("HWLOC_FSROOT", fsroot, 1); setenv("HWLOC_DUMPED_HWDATA_DIR", "/var/run/hwloc", 1); }
   if (strcmp(cpuid, "-")) setenv("HWLOC_CPUID_PATH", cpuid, 1);
-  setenv("HWLOC_COMPONENTS", comps == 'L' ? "linux,stop" : comps == 'X' ? "x86,stop" : "x86,linux,stop", 1);
+  const char *sel = comps == 'L' ? "linux,stop" : comps == 'X' ? "x86,stop" : "x86,linux,stop";
+  if (comps != 'X') {
+    if (strchr(g_variant, 'D')) sel = NULL;
+    else if (strchr(g_variant, 'o')) sel = comps == 'L' ? "linux" : "x86";
+    else if (strchr(g_variant, 'n')) sel = comps == 'L' ? "-x86" : "linux,x86,stop";
+  }
+  if (sel) setenv("HWLOC_COMPONENTS", sel, 1);
+}
+/* check letter `i`: another load IN THE SAME PROCESS under another component selection between the two loads that must be identical
+ * (state a load leaves behind in the process-wide component registry must not leak into the next one) */
+static void interfering_load(char comps, unsigned long flags, const char *filters, const char *fsroot, const char *cpuid) {
+  const char *saved = g_variant;
+  g_variant = (comps == 'L' && !strpbrk(saved, "Don")) ? "D" : "";   /* explicit "...,stop" list, or the default one when the case uses it */
+  if (comps == 'B' && !strpbrk(saved, "Don")) g_variant = "o";
+  set_env(comps == 'B' && strpbrk(saved, "Don") ? 'L' : comps, fsroot, cpuid);
+  hwloc_topology_t t = NULL;
+  if (hwloc_topology_init(&t) == 0) {
+    hwloc_topology_set_flags(t, flags & ~(unsigned long) HWLOC_TOPOLOGY_FLAG_INCLUDE_DISALLOWED);
+    (void) filters;
+    hwloc_topology_load(t);            /* result irrelevant */
+    hwloc_topology_destroy(t);
+  }
+  g_variant = saved;
+  set_env(comps, fsroot, cpuid);
 }
 static void clear_env(void) {
   unsetenv("HWLOC_FSROOT"); unsetenv("HWLOC_CPUID_PATH"); unsetenv("HWLOC_COMPONENTS"); unsetenv("HWLOC_DUMPED_HWDATA_DIR");
@@ -87,6 +115,7 @@ static const char *run_case_child2(FILE *out, const char *id, char comps, unsign
                                   const char *fsroot, const char *cpuid, const char *checks, char *notes, size_t notescap) {
   char tag[128], tag2[128];
   notes[0] = 0;
+  g_variant = checks;
   set_env(comps, fsroot, cpuid);
   hwloc_topology_t a = load(flags, filters);
   if (!a) {
@@ -97,6 +126,7 @@ static const char *run_case_child2(FILE *out, const char *id, char comps, unsign
   dump_topology(out, a, tag);
   checked_topology_check(a, notes, notescap, "a");
   if (strchr(checks, 'r')) {
+    if (strchr(checks, 'i')) interfering_load(comps, flags, filters, fsroot, cpuid);
     hwloc_topology_t b = load(flags, filters);
     if (!b) snprintf(notes + strlen(notes), notescap - strlen(notes), " NONDETERMINISTIC:second-load-failed");
     else { snprintf(tag2, sizeof tag2, "%s.b", id); dump_topology(out, b, tag2); fprintf(out, "REL same %s %s\n", tag, tag2); hwloc_topology_destroy(b); }
